@@ -39,6 +39,10 @@ Record quirks := { q_unnamed_sentinel : bool; q_modre_anchored : bool; q_cfg_goq
 Definition quirks_off := {| q_unnamed_sentinel := false; q_modre_anchored := false; q_cfg_goquote := false |}.
 Definition quirks_on := {| q_unnamed_sentinel := true; q_modre_anchored := true; q_cfg_goquote := true |}.
 
+Definition only_sentinel := {| q_unnamed_sentinel := true; q_modre_anchored := false; q_cfg_goquote := false |}.
+Definition only_modre := {| q_unnamed_sentinel := false; q_modre_anchored := true; q_cfg_goquote := false |}.
+Definition only_cfg := {| q_unnamed_sentinel := false; q_modre_anchored := false; q_cfg_goquote := true |}.
+
 Inductive res (A : Type) := Ok (a : A) | Err | Panic | OOF.
 Arguments Ok {A} a. Arguments Err {A}. Arguments Panic {A}. Arguments OOF {A}.
 
